@@ -30,7 +30,13 @@ func (mp metaPath) FilePath() string {
 }
 
 type metaStore struct {
-	fs          afero.Fs
+	fs afero.Fs
+
+	// objectFs and objectPath locate the object a metadata record describes,
+	// so that a stale or missing record can be rebuilt from the object itself.
+	objectFs   afero.Fs
+	objectPath func(bucket, object string) string
+
 	modTimeCalc modTimeCalc
 	modTimeRes  time.Duration
 }
@@ -90,7 +96,12 @@ func (ms *metaStore) loadMeta(bucket string, object string, size int64, mtime ti
 	if len(meta.Hash) == 0 || meta.Size != size || modDiff < -modRes || modDiff > modRes {
 		meta.Size = size
 		meta.ModTime = mtime
-		meta.Hash, err = hashFile(ms.fs, fullPath)
+		// The hash is the hash of the object, not of the metadata record:
+		hashFs, hashPath := ms.fs, fullPath
+		if ms.objectFs != nil && ms.objectPath != nil {
+			hashFs, hashPath = ms.objectFs, ms.objectPath(bucket, object)
+		}
+		meta.Hash, err = hashFile(hashFs, hashPath)
 		if err != nil {
 			return nil, err
 		}
